@@ -89,11 +89,11 @@ Definition with_conflict (t : txfacts) (b : bool) : txfacts :=
   mkFacts (f_script_ok t) (f_vub t) (f_size t) (f_sysfee t) (f_netfee t) (f_attr_fee t) (f_policy_ok t)
           (f_on_chain t) b (f_witnesses t) (f_attrs_ok t).
 
-Definition check_admit (base : N) (ch : chainfacts) (t : txfacts) (ws : list hwit) (pre : list tx) (x : tx)
+Definition check_accept (base : N) (ch : chainfacts) (t : txfacts) (ws : list hwit) (pre : list tx) (x : tx)
            (bal : list (payer * N)) (impl : option N) : N :=
       let t' := with_witnesses t (wit_facts base ws) in
       let s0 := fold_left (fun s y => snd (add fixed_cfg (bal_of bal) s y)) pre (new_pool 50) in
-      let r := fst (admit_tx ch t' (bal_of bal) s0 x) in
+      let r := fst (accept_tx ch t' (bal_of bal) s0 x) in
       let model := match r with inr _ => None | inl e => Some (class_of e) end in
       let accepted := match impl with None => true | Some _ => false end in
       let spec := admissibleb ch t' && match fst (add fixed_cfg (bal_of bal) s0 x) with ROk => true | _ => false end in
@@ -181,12 +181,12 @@ Definition check_case (c : case) : N :=
       let within := forallb (fun s => calc_fee base s <=? maxgas) shapes in
       (* specification: when every witness fits the verification gas limit, accepted exactly from the calculated fee on *)
       code_of (Bool.eqb model accepted) (if within then Bool.eqb accepted (0 <=? delta)%Z else negb accepted)
-  | CAdmit base ch t ws pre x bal impl => check_admit base ch t ws pre x bal impl
+  | CAdmit base ch t ws pre x bal impl => check_accept base ch t ws pre x bal impl
   | CHist base ch mtb events h signers t ws x bal impl =>
       let es := map (fun e : N * list N * list N => let '(i, sg, hs) := e in mkEvent i sg hs) events in
       let m := has_conflict (build es) h signers (c_height ch) mtb in
       if Bool.eqb m (conflict_spec es h signers (c_height ch) mtb) then
-        check_admit base ch (with_conflict t m) ws [] x bal impl
+        check_accept base ch (with_conflict t m) ws [] x bal impl
       else 3
   | CRefresh vub heights wits ops =>
       let '(m, sp) := refresh_run heights (mk_ptx vub wits) (O, []) ops in
